@@ -86,6 +86,9 @@ def scenarios(tier, seed):
     dags = all_dags(names)
     for i in range(0, len(dags), 5):
         out.append(dict(family="decompose", mode="decompose", names=names, dags=dags[i:i + 5], hashseed=(i // 5) % 2))
+    for ms in (1, 2, 3, 5):
+        for order in range(3):
+            out.append(dict(family="cache-sequences", mode="cacheseq", names=names, max_size=ms, order=order, hashseed=order % 2))
     shapes = [([], {}), (["A"], {}), (["B", "A"], {})]
     for pa, _ in shapes:
         cards = [dict(C=2, A=2, B=2), dict(C=3, A=2, B=2), dict(C=2, A=3, B=2)]
@@ -110,7 +113,34 @@ def scenarios(tier, seed):
 
 
 def run(desc, M):
-    return {"decompose": run_decompose, "closed": run_closed, "equiv": run_equiv}[desc["mode"]](desc, M)
+    return {"decompose": run_decompose, "closed": run_closed, "equiv": run_equiv, "cacheseq": run_cacheseq}[desc["mode"]](desc, M)
+
+
+def run_cacheseq(desc, M):
+    """every call sequence through a small LRU cache (evictions, re-insertions, hits after overflow) returns the base scorer's value"""
+    import importlib
+    import pandas as pd
+    ScoreCache = importlib.import_module("pgmpy.estimators.ScoreCache")
+    names = desc["names"]
+    M.declare(score_names(names))
+    S = {}
+    keys = []
+    for v in names:
+        others = [x for x in names if x != v]
+        for r in range(len(others) + 1):
+            for ps in itertools.combinations(others, r):
+                S[(v, frozenset(ps))] = M.sym(f"s_{v}_{''.join(ps)}")
+                keys.append((v, list(ps)))
+    data = pd.DataFrame([[0] * len(names), [1] * len(names)], columns=names)
+    base = make_score(M, names, S, data)
+    cached = ScoreCache.ScoreCache(base, data, max_size=desc["max_size"])
+    o = desc["order"]
+    seq = keys + keys[::-1] + keys[o::2] + keys[:3] * 2 + keys[::3] + keys
+    if o == 1:
+        seq = keys[::2] + keys[::2] + keys[1::2] + keys[::2] + keys
+    for i, (v, pa) in enumerate(seq):
+        M.eq(cached.local_score(v, pa), S[(v, frozenset(pa))], "cached local score equals the base scorer's on every call of a sequence that overflows the cache",
+             detail=f"call {i}: {v}|{pa} max_size={desc['max_size']}")
 
 
 def run_decompose(desc, M):
